@@ -839,8 +839,23 @@ func (h *H) IndexCompact() string {
 		return "err:" + err.Error()
 	}
 	if t, ok := idx.(*tsi1.Index); ok {
-		t.Compact()
-		t.Wait()
+		// the active log file of every partition becomes an index file (what happens by
+		// itself once the log is large enough), then the level compactions run to the end
+		for i := 0; i < int(t.PartitionN); i++ {
+			p := t.PartitionAt(i)
+			old := p.MaxLogFileSize
+			p.MaxLogFileSize = 1
+			err := p.CheckLogFile()
+			p.MaxLogFileSize = old
+			if err != nil {
+				return "err:" + strings.ReplaceAll(err.Error(), " ", "_")
+			}
+		}
+		for i := 0; i < 3; i++ {
+			t.Wait()
+			t.Compact()
+			t.Wait()
+		}
 	}
 	return "ok"
 }
